@@ -149,8 +149,16 @@ func c36(r *simk.Run) *simk.Violation {
 		switch c.Weighted(5, 3, 1, 4, 2) {
 		case 0, 1:
 			i := c.Intn(nChunks)
-			if sh.pending[i] || sh.accepted[i] {
+			if sh.pending[i] {
 				continue
+			}
+			if sh.accepted[i] {
+				// a chunk that was already saved as accepted is sometimes offered again (a repeated signature
+				// request, a late gossip): it is pending once more, and must still be after a restart
+				if chunks[i].expiry < sh.min || !c.Bool(0.3) {
+					continue
+				}
+				interesting = true
 			}
 			kind := "local"
 			if c.Bool(0.4) {
